@@ -9,6 +9,10 @@ TRUST = ("Trusted: the VC generator govc (SSA->SMT translation, memory model, lo
          "(strconv, strings, fmt, log, encoding/binary, ...). The PEG parsers (pigeon) and the asmdb JSON table are outside every contract.")
 
 claimed = {
+ "C03": dict(
+   text="Deductive proofs tying the two independent size computations to one specification each: (a) memory operands - pass 1's CalcOffsetByteSize/CalcSibByteSize and the emitter's calculateModRM are both proved, for every operand and both modes, to produce the number of displacement bytes and the SIB presence given by one SDM-derived size function of the operand (so they agree wherever both proofs hold; six input regions where the current tree disagrees are recorded findings); (b) data directives - processDB/DW/DD/RESB/ALIGNB advance LOC by exactly the number of bytes handleDB/DW/DD/RESB/ALIGNB emit for the values handed over (loop invariants, any list length); (c) jumps - estimateJumpSize/getOffsetSize size classes; (d) the origin reaches code generation unchanged (SetDollarPosition, Pass2.Eval) and `$`/label values are read from the table pass 1 filled (ImmExp.Eval, SetSymbolTable); (e) GetOutputSize is the row's byte count (opcode-length finding recorded).",
+   note=TRUST + " PARTIAL: the summation itself (every label = origin + sum of the sizes of the statements before it) happens in pass1.TraverseAST, which is only used through a trusted frame contract; FindMinOutputSize/GetPrefixSize (prefix bytes) and the per-instruction pass-1 handlers are not under contract; the jump size estimate is known to disagree with emission (C04 findings).",
+   design="DESIGN.md section 4, C03"),
  "C08": dict(
    text="Deductive proof, with loop invariants for symbol lists of any length, over the real COFF symbol-table builder (generateSymbolEntries) and name encoder (convertNameToBytes): the table starts with the .file symbol and the three section symbols with exactly the PE/COFF field values and auxiliary-record contents (section length, zero relocation/line counts), every record announces exactly as many auxiliary records as follow it (so the record count is well defined), every user symbol is an external symbol of section 0 or 1, the number of entries is 4 + GLOBAL names + EXTERN names; a name of at most 8 bytes is stored inline NUL-padded, a longer one as four zero bytes plus an offset that - counted from the size field - lies inside the string table and points at that name followed by NUL, equal names share one offset (de-duplication map invariant proved as a data-structure invariant over all keys).",
    note=TRUST + " PARTIAL: the file-level layout written by CoffFormat.Write (header counts and offsets, section table, placement of .text, the string-table size field) is not under contract yet, so 'an independent reader parses the file' is not decided; struc.PackWithOptions and sort.SliceStable are library code (the latter modelled: permutation + ordered by the comparator). At most 65536 names of at most 4096 bytes are assumed (A14).",
